@@ -184,19 +184,31 @@ fn replay_value(v: &Value) -> Vec<Violation> {
     } else {
         vec![a.clone(), b.clone()]
     };
-    let outs = run_children(&envs, 3);
-    let mut seen: BTreeSet<String> = BTreeSet::new();
-    for (_, r) in &outs {
-        match r {
-            Ok(o) => {
-                for h in o.fps.get(&est).cloned().unwrap_or_default() {
-                    seen.insert(h);
-                }
+    // Under the shim a hash-order dependence reproduces at once. A dependence on the free-running
+    // rayon pool (or another uncontrolled source) may need several attempts: up to 20 are made, the
+    // verdict text does not depend on how many were needed.
+    let mut differs = false;
+    for _attempt in 0..20 {
+        let outs = run_children(&envs, 3);
+        let mut vectors: Vec<Vec<String>> = Vec::new();
+        for (_, r) in &outs {
+            match r {
+                Ok(o) => vectors.push(o.fps.get(&est).cloned().unwrap_or_default()),
+                Err(e) => machinery(&format!("replay child failed: {}", e)),
             }
-            Err(e) => machinery(&format!("replay child failed: {}", e)),
+        }
+        let d = if axis == "in_process_rerun" || axis == "process_rerun" {
+            let all: BTreeSet<&String> = vectors.iter().flatten().collect();
+            all.len() > 1
+        } else {
+            vectors.iter().any(|v| *v != vectors[0])
+        };
+        if d {
+            differs = true;
+            break;
         }
     }
-    if seen.len() > 1 {
+    if differs {
         vec![Violation::new(
             format!("nondeterministic.{}.{}", est, axis),
             describe(&est, &axis, &a, &b),
